@@ -10,7 +10,8 @@ depends on the contents and the statement only.
 
 Canonical form shared with the harness: rows of a selection that share a timestamp come in the
 model's order; the rows of a timestamp whose rows are only partly inside the limit / offset
-window are printed as `<t>:~` (which of them are returned is not determined by the language).
+window are printed as `<t>:~` (which of them are returned is not determined by the language);
+the time of a lone `min` / `max` whose extreme value occurs at several times is printed as `~`.
 -/
 import OG.C08.Model
 
@@ -142,6 +143,39 @@ def cutTimes (limit offset : Nat) (rows : List OutRow) : List (Option Int) :=
 def showRowCut (cut : List (Option Int)) (r : OutRow) : String :=
   if cut.contains r.t then showTime r.t ++ ":~" else showRow r
 
+/-- a statement with a single `min` / `max` call and no buckets reports the time of the selected
+point; when the extreme value occurs at several times the language does not say which. -/
+def loneExtremeTie (q : Query) (rows : List Row) : Bool :=
+  match q.calls with
+  | [(f, c)] =>
+    if q.agg && q.interval == 0 && (f == .min || f == .max) then
+      let ps := pointsOf c rows
+      match selectPt f (c == .fb) ps with
+      | some p => decide (1 < (ps.filter (fun x => x.2 == p.2)).length)
+      | none => false
+    else false
+  | _ => false
+
+def showRowTie (tie : Bool) (r : OutRow) : String :=
+  if tie then "~:" ++ ",".intercalate (r.vals.map showVal) else showRow r
+
+/-- fill(previous) with several calls or a group-by tag: the executor's previous-value
+bookkeeping is a known finding (class fill-previous-multi); the cells that hold a filled value
+are printed as `?` on both sides, everything else (buckets, real values) is compared exactly. -/
+def maskedFill (q : Query) : Bool :=
+  q.agg && q.interval != 0 && q.fill == .previous && (decide (1 < q.calls.length) || q.grp != .none)
+
+def fillSentinel : Int := -1099511627776
+
+def isSentinel : Val → Bool
+  | .int v => v == fillSentinel || v == fillSentinel * 8
+  | .rat n _ => n == fillSentinel || n == fillSentinel * 8
+  | .null => true    -- fill(<number>) leaves only the cells of boolean / string calls null
+
+def showRowMasked (r m : OutRow) : String :=
+  showTime r.t ++ ":" ++ ",".intercalate
+    ((r.vals.zip m.vals).map (fun (v, mv) => if isSentinel mv then "?" else showVal v))
+
 /-- canonical answer of a statement. -/
 def answer (q : Query) (db : Db) : String :=
   let rows := db.filter q.keep
@@ -153,6 +187,12 @@ def answer (q : Query) (db : Db) : String :=
     let cut := if q.agg then [] else cutTimes q.limit q.offset full
     let out := applyLimit q.limit q.offset full
     if out.isEmpty then none
+    else if maskedFill q then
+      let qm := { q with fill := Fill.number fillSentinel }
+      let outM := applyLimit q.limit q.offset (qm.evalAgg grows)
+      some (showGroupTag q.grp k ++ "{" ++ ";".intercalate ((out.zip outM).map (fun (r, m) => showRowMasked r m)) ++ "}")
+    else if loneExtremeTie q grows then
+      some (showGroupTag q.grp k ++ "{" ++ ";".intercalate (out.map (showRowTie true)) ++ "}")
     else some (showGroupTag q.grp k ++ "{" ++ ";".intercalate (out.map (showRowCut cut)) ++ "}"))
   if groups.isEmpty then "ans" else "ans " ++ " ".intercalate groups
 
